@@ -498,4 +498,58 @@ Section Rules2.
   Lemma rule_tstdarg_verb n ps d pos :
     R (S n) (TStdArg ps (AKVerb d) pos) = parse_content false (R n (TVerbDelim ps d pos)).
   Proof. reflexivity. Qed.
+
+  (** ** the expression parser with nodes already skipped (whitespace, comments) *)
+  Lemma rule_texpr_grpA n ps aps apc sterr acc pos nd p :
+    impl_peek (sub_context ps [UEnEnvs false]) s pos = TokOk (mk TkBraceOpen [123%N] pos (S pos) [] []) ->
+    R n (TGroup ps (GDStr [123%N]) false false pos) = Ok (ONode nd) p ->
+    R (S n) (TExpr ps aps apc false sterr acc pos) = Ok (ONode nd) p.
+  Proof.
+    intros T H. rewrite run_expr. unfold expr_step. rewrite next_tok_strict, T.
+    cbn [mk tk targ tpre tpos tend]. rewrite H. cbn [parse_content]. apply e_finish_last.
+  Qed.
+
+  Lemma rule_texpr_macroA n ps aps apc sterr acc pos name p0 pe pre post sp :
+    impl_peek (sub_context ps [UEnEnvs false]) s pos = TokOk (mk TkMacro name p0 pe pre post) ->
+    str_eqb name kw_begin = false -> str_eqb name kw_end = false -> get_macro_spec cx name = Some sp ->
+    R (S n) (TExpr ps aps apc false sterr acc pos)
+    = Ok (ONode (Some (NMacro p0 pe (ps_mode ps) name post (Some ([], []))))) pe.
+  Proof.
+    intros T B E SP. rewrite run_expr. unfold expr_step. rewrite next_tok_strict, T.
+    cbn [mk tk targ tpre tpos tend tpost]. rewrite B, E, SP. cbn [orb]. rewrite andb_false_r.
+    apply e_finish_last.
+  Qed.
+
+  Lemma rule_texpr_spcA n ps aps apc sterr acc pos chars p0 pe pre :
+    impl_peek (sub_context ps [UEnEnvs false]) s pos = TokOk (mk TkSpecials chars p0 pe pre []) ->
+    R (S n) (TExpr ps aps apc false sterr acc pos)
+    = Ok (ONode (Some (NSpecials p0 pe (ps_mode ps) chars (Some ([], []))))) pe.
+  Proof.
+    intros T. rewrite run_expr. unfold expr_step. rewrite next_tok_strict, T.
+    cbn [mk tk targ tpre tpos tend tpost]. apply e_finish_last.
+  Qed.
+
+  (** whitespace in front of a brace / character / comment token *)
+  Lemma rule_texpr_skipws n ps apc sterr acc pos k a e w ws post :
+    (k = TkBraceOpen \/ k = TkChar \/ k = TkComment) ->
+    impl_peek (sub_context ps [UEnEnvs false]) s pos
+    = TokOk (mk k a (pos + length (w :: ws)) e (w :: ws) post) ->
+    R (S n) (TExpr ps true apc false sterr acc pos)
+    = R n (TExpr ps true apc false sterr
+                 (acc ++ [Some (mk_chars ps pos (pos + length (w :: ws)) (w :: ws))]) (pos + length (w :: ws))).
+  Proof.
+    intros K T. rewrite run_expr. unfold expr_step. rewrite next_tok_strict, T.
+    cbn [mk tk targ tpre tpos tend]. rewrite Nat.add_sub.
+    destruct K as [K|[K|K]]; subst k; reflexivity.
+  Qed.
+
+  (** a comment in front of the argument *)
+  Lemma rule_texpr_comment n ps aps sterr acc pos text pe post :
+    impl_peek (sub_context ps [UEnEnvs false]) s pos = TokOk (mk TkComment text pos pe [] post) ->
+    R (S n) (TExpr ps aps true false sterr acc pos)
+    = R n (TExpr ps aps true false sterr (acc ++ [Some (NComment pos pe (ps_mode ps) text post)]) pe).
+  Proof.
+    intros T. rewrite run_expr. unfold expr_step. rewrite next_tok_strict, T.
+    cbn [mk tk targ tpre tpos tend tpost]. reflexivity.
+  Qed.
 End Rules2.
